@@ -20,7 +20,16 @@ type vhFakeConn struct {
 	// still on its way: the request is in flight)
 	gate      chan struct{}
 	gateAfter int
+	// stallAt: a Read that reaches this offset fails once with a timeout (the rest of the data arrives later)
+	stallAt int
+	stalled bool
 }
+
+type vhTimeoutError struct{}
+
+func (vhTimeoutError) Error() string   { return "vh: i/o timeout" }
+func (vhTimeoutError) Timeout() bool   { return true }
+func (vhTimeoutError) Temporary() bool { return true }
 
 type vhAddr struct{}
 
@@ -41,7 +50,14 @@ func (c *vhFakeConn) Read(b []byte) (int, error) {
 		}
 		return 0, io.EOF
 	}
+	if c.stallAt > 0 && !c.stalled && c.off == c.stallAt {
+		c.stalled = true
+		return 0, vhTimeoutError{}
+	}
 	avail := c.data[c.off:]
+	if c.stallAt > 0 && !c.stalled && c.off < c.stallAt && len(avail) > c.stallAt-c.off {
+		avail = avail[:c.stallAt-c.off]
+	}
 	if c.gate != nil && c.off < c.gateAfter && len(avail) > c.gateAfter-c.off {
 		avail = avail[:c.gateAfter-c.off] // nothing beyond the gate is delivered early
 	}
